@@ -61,6 +61,9 @@ def gen_ops(rng, n):
             ops.append(["sync", [[p, rng.choice(KEYS)] for p in ps]])
         else:
             ops.append(["fetch_paths", [rng.choice(PATHS) for _ in range(rng.choice([1, 2]))]])
+    # directed: a path goes from one key to another and back (an edit and its revert), then is resolved
+    p = rng.choice(PATHS)
+    ops += [["sync", [[p, "kpresent"]]], ["sync", [[p, "k5"]]], ["sync", [[p, "kpresent"]]], ["fetch_paths", [p]]]
     return ops
 
 
